@@ -348,27 +348,49 @@ def r_alias(ctx) -> RuleResult:
     res = RuleResult("R-ALIAS", "no attribute dictionary object is stored for two atoms or two bonds: a dictionary created outside a loop/comprehension is copied per insertion")
     fis = closure(ctx, "parse", "read_text")
     n = 0
+
+    def classify(fi, val, per_iteration: set):
+        """'shared' / 'copied' / 'fresh' for a dictionary-valued expression stored once per iteration, else None;
+        members of a tuple (key, value) are looked at one by one"""
+        out = []
+        for v in (val.elts if isinstance(val, ast.Tuple) else [val]):
+            if isinstance(v, ast.Name) and v.id not in per_iteration and _is_dict_expr(ctx, fi, v):
+                out.append(("shared", v.id))
+            elif isinstance(v, ast.Call) and isinstance(v.func, ast.Attribute) and v.func.attr == "copy" and isinstance(v.func.value, ast.Name) \
+                    and v.func.value.id not in per_iteration and _is_dict_expr(ctx, fi, v.func.value):
+                out.append(("copied", v.func.value.id))
+            elif isinstance(v, ast.Call) and isinstance(v.func, ast.Name) and v.func.id in ("dict", "deepcopy") and v.args and isinstance(v.args[0], ast.Name) \
+                    and v.args[0].id not in per_iteration and _is_dict_expr(ctx, fi, v.args[0]):
+                out.append(("copied", v.args[0].id))
+            elif isinstance(v, (ast.Dict, ast.DictComp)) or (isinstance(v, ast.Call) and _is_dict_expr(ctx, fi, v)) or \
+                    (isinstance(v, ast.Name) and v.id in per_iteration and _is_dict_expr(ctx, fi, v)):
+                out.append(("fresh", None))
+        for kind in ("shared", "copied", "fresh"):
+            for k, nm in out:
+                if k == kind:
+                    return k, nm
+        return None, None
     for fi in fis:
         fn = fi.node
         for x in own_walk(fn):
-            # [d for _ in range(k)] / [d.copy() for ...]
-            if isinstance(x, (ast.ListComp, ast.GeneratorExp)):
+            if isinstance(x, (ast.ListComp, ast.GeneratorExp, ast.SetComp, ast.DictComp)):
                 bound = {nm.id for g in x.generators for nm in ast.walk(g.target) if isinstance(nm, ast.Name)}
-                elt = x.elt
-                if isinstance(elt, ast.Name) and elt.id not in bound and _is_dict_expr(ctx, fi, elt):
+                val = x.value if isinstance(x, ast.DictComp) else x.elt
+                kind, nm = classify(fi, val, bound)
+                if kind == "shared":
                     n += 1
                     res.inst(fi.fq, short(x), "fail")
-                    res.fail(Finding("R-ALIAS", fi.module.rel, fi.qualname, norm(x), f"the same dictionary object `{elt.id}` is inserted once per iteration: all these atoms share their attributes", line=x.lineno))
-                elif isinstance(elt, ast.Call) and isinstance(elt.func, ast.Attribute) and elt.func.attr == "copy" and isinstance(elt.func.value, ast.Name) \
-                        and elt.func.value.id not in bound and _is_dict_expr(ctx, fi, elt.func.value):
+                    res.fail(Finding("R-ALIAS", fi.module.rel, fi.qualname, norm(x), f"the same dictionary object `{nm}` is inserted once per iteration: all these atoms share their attributes"
+                                     if not isinstance(x, ast.DictComp) else f"the same dictionary object `{nm}` becomes the value of every key", line=x.lineno))
+                elif kind:
                     n += 1
-                    res.inst(fi.fq, short(x), "ok", detail="copied per element")
-            if isinstance(x, (ast.DictComp,)):
-                bound = {nm.id for g in x.generators for nm in ast.walk(g.target) if isinstance(nm, ast.Name)}
-                if isinstance(x.value, ast.Name) and x.value.id not in bound and _is_dict_expr(ctx, fi, x.value):
+                    res.inst(fi.fq, short(x), "ok", detail="copied per element" if kind == "copied" else "a new dictionary per element")
+            if isinstance(x, ast.Call) and isinstance(x.func, ast.Attribute) and x.func.attr == "fromkeys" and len(x.args) == 2:
+                kind, nm = classify(fi, x.args[1], set())
+                if kind in ("shared", "fresh", "copied"):
                     n += 1
                     res.inst(fi.fq, short(x), "fail")
-                    res.fail(Finding("R-ALIAS", fi.module.rel, fi.qualname, norm(x), f"the same dictionary object `{x.value.id}` becomes the value of every key", line=x.lineno))
+                    res.fail(Finding("R-ALIAS", fi.module.rel, fi.qualname, norm(x), "dict.fromkeys gives every key the same dictionary object", line=x.lineno))
             if isinstance(x, (ast.For, ast.While)):
                 rebound = set()
                 for y in ast.walk(x):
@@ -393,14 +415,14 @@ def r_alias(ctx) -> RuleResult:
                         val = y.args[-1]
                     if val is None:
                         continue
-                    if isinstance(val, ast.Name) and val.id not in rebound and _is_dict_expr(ctx, fi, val):
+                    kind, nm = classify(fi, val, rebound)
+                    if kind == "shared":
                         n += 1
                         res.inst(fi.fq, short(y), "fail")
-                        res.fail(Finding("R-ALIAS", fi.module.rel, fi.qualname, norm(y), f"the dictionary `{val.id}` created outside the loop is stored on every iteration without a copy: the entries share one object", line=y.lineno))
-                    elif isinstance(val, ast.Call) and isinstance(val.func, ast.Attribute) and val.func.attr == "copy" and isinstance(val.func.value, ast.Name) \
-                            and _is_dict_expr(ctx, fi, val.func.value):
+                        res.fail(Finding("R-ALIAS", fi.module.rel, fi.qualname, norm(y), f"the dictionary `{nm}` created outside the loop is stored on every iteration without a copy: the entries share one object", line=y.lineno))
+                    elif kind:
                         n += 1
-                        res.inst(fi.fq, short(y), "ok", detail="copied per insertion")
+                        res.inst(fi.fq, short(y), "ok", detail="copied per insertion" if kind == "copied" else "a new dictionary per insertion")
     if n < 2:
         raise AnalysisError(f"R-ALIAS: only {n} per-atom / per-bond dictionary insertions recognised (idiom changed)")
     res.counts = {"insertion_sites": n}
